@@ -144,7 +144,13 @@ pub struct Ctl {
     /// 1-based positions of underlying calls that must fail (0 = none)
     pub fail_at: [AtomicUsize; 2],
     pub order: Order,
+    /// set when one armed window made more than CALL_HORIZON calls: every further call fails, so
+    /// that a runaway (non-terminating) operation winds down instead of eating all memory
+    pub runaway: AtomicBool,
 }
+
+/// No operation over the tiny universes used here needs more than a few thousand calls.
+pub const CALL_HORIZON: usize = 5_000;
 
 impl Ctl {
     pub fn new(order: Order) -> Arc<Ctl> {
@@ -154,6 +160,7 @@ impl Ctl {
             calls: AtomicUsize::new(0),
             fail_at: [AtomicUsize::new(0), AtomicUsize::new(0)],
             order,
+            runaway: AtomicBool::new(false),
         })
     }
     pub fn arm(&self, fail_at: [usize; 2]) {
@@ -186,6 +193,10 @@ impl Wrap {
         let mut injected = false;
         if self.underlying {
             let n = self.ctl.calls.fetch_add(1, Ordering::SeqCst) + 1;
+            if n > CALL_HORIZON {
+                self.ctl.runaway.store(true, Ordering::SeqCst);
+                return Err(VfsErrorKind::Other("HARNESS: call horizon exceeded".into()).into());
+            }
             if n == self.ctl.fail_at[0].load(Ordering::SeqCst) || n == self.ctl.fail_at[1].load(Ordering::SeqCst) {
                 injected = true;
             }
